@@ -1,6 +1,6 @@
 #!/bin/sh
 # tools/confirm_seeded.sh <Cxx> <i> : confirm a sub-agent's change in a scratch copy (applies to HEAD of /repo, demo fails with / passes without, test-suite passes)
-C=$1; I=$2; SRC=/tmp/wt_out/$C; OUT=$SRC/m$I.confirm.json
+C=$1; I=$2; case "$C" in /*) SRC=$C;; *) SRC=/tmp/wt_out/$C;; esac; OUT=$SRC/m$I.confirm.json
 [ -f "$OUT" ] && { cat "$OUT"; exit 0; }
 D=$(mktemp -d /tmp/conf_XXXXXX)
 git -C /repo archive HEAD | tar -x -C "$D"
